@@ -59,6 +59,21 @@ theorem C13_stdin_reader_independent (rid : Nat) (ps : List Pair) (body : Bytes)
   unfold clientWireVia clientWire
   rw [stdinWire_eq rid body rk hnone]
 
+/-- The contract of the `bufio.Writer` model (`BufW`) that the request side relies on, for every
+state, every `p` and every record type: `Write(p)` and `WriteString(p)` accept all of `p` (the Go
+calls return `len(p)`), `Flush` changes nothing but where the bytes sit, and after `Close` the
+wire is whole records of 1..65500 bytes carrying exactly the bytes written, in order, followed by
+exactly one empty record — wherever the flush boundaries fell. -/
+theorem C13_writer_contract (t rid : Nat) (w : BufW) (s p : Bytes) (h : Holds t rid w s) :
+    Holds t rid (BufW.write t rid w p) (s ++ p) ∧ Holds t rid (BufW.writeString t rid w p) (s ++ p) ∧
+    Holds t rid (BufW.flush t rid w) s ∧
+    ∃ chunks : List Bytes, BufW.close t rid w = recordsOf t rid chunks ++ streamClose t rid ∧
+      (∀ c ∈ chunks, c ≠ [] ∧ c.length ≤ maxWrite) ∧ chunks.flatten = s :=
+  ⟨write_holds p h, writeString_holds p h, (flush_holds h).1, close_holds h⟩
+
+/-- it holds initially -/
+example (t rid : Nat) : Holds t rid {} [] := holds_empty t rid
+
 /-- THE request-direction claim.  For every request id, every list of name-value pairs that
 each fit a single record (`8+len(name)+len(value) ≤ 65500`), in every iteration order, and every
 body: a conforming responder decodes from what `Do` wrote exactly those pairs, in that order,
